@@ -34,12 +34,41 @@ class Workspace:
         for ev in events or []:
             if ev.get("ev") == "fault_fired" and ev.get("kind") == "flip_byte" and ev.get("path") in self.files:
                 f = self.files[ev["path"]]
-                if ev.get("valid") and isinstance(ev.get("doc"), dict) and isinstance(ev["doc"].get("traceEvents"), list):
+                if ev.get("valid") and isinstance(ev.get("doc"), dict) and isinstance(ev["doc"].get("traceEvents"), list) \
+                        and _judgeable(ev["doc"]):
                     f["doc"] = ev["doc"]
                     f["torn"] = False
                     f["flipped"] = True
+                elif ev.get("valid"):
+                    # still JSON, but no longer a trace document the properties speak about (a ts turned into a
+                    # string, a key renamed ...): neither "must raise" nor judgeable
+                    f["torn"] = False
+                    f["unjudged"] = True
                 else:
                     f["torn"] = True
+
+
+def _judgeable(doc: Dict[str, Any]) -> bool:
+    """A document changed by a flipped byte is judged only while it still is a trace in the sense of the
+    properties: every complete event has numeric ts / dur, string name / cat, integer pid-like fields
+    untouched in type, and args that is a dict (or absent)."""
+    def num(x: Any) -> bool:
+        return isinstance(x, (int, float)) and not isinstance(x, bool)
+    for e in doc["traceEvents"]:
+        if not isinstance(e, dict):
+            return False
+        if e.get("dur") is None or e.get("cat") is None:
+            continue
+        if not (num(e.get("ts")) and num(e.get("dur")) and isinstance(e.get("name"), str) and isinstance(e.get("cat"), str)):
+            return False
+        if "args" in e and not isinstance(e["args"], dict):
+            return False
+        if e.get("dur") < 0:
+            return False
+        a = e.get("args") or {}
+        if "correlation" in a and not isinstance(a["correlation"], int):
+            return False
+    return True
 
 
 def gen_env(rng: Rng, n_ranks: int, faulty: bool) -> Dict[str, Any]:
@@ -55,6 +84,8 @@ def gen_env(rng: Rng, n_ranks: int, faulty: bool) -> Dict[str, Any]:
     env["tapes"] = [[rng.below(64) for _ in range(4 * n_ranks + 8)] for _ in range(4)]
     env["listdir_seed"] = rng.below(1 << 30)
     env["random_seed"] = rng.below(1 << 30)
+    # the library's logger level is process-wide configuration; DEBUG enables extra code paths
+    env["log_level"] = "DEBUG" if rng.chance(0.1) else "CRITICAL"
     return env
 
 
@@ -77,6 +108,9 @@ def gen_load_op(rng: Rng, world: Dict[str, Any]) -> Dict[str, Any]:
         op["files"] = names
     if op["mode"] == "parse" and rng.chance(0.3):
         op["max_ranks"] = rng.randint(1, max(1, len(files)))
+    if world["knobs"].get("fractional") and rng.chance(0.35):
+        # the documented switch that keeps nanosecond-resolution timestamps unrounded
+        op["environ"] = {"HTA_DISABLE_NS_ROUNDING": "1"}
     if op["mode"] == "single":
         ranks = [f["rank"] for f in files] if op["via"] == "dir" else (
             [int(r) for r in op["files"]] if op["via"] == "dict" else
@@ -92,11 +126,14 @@ def gen_plan(rng: Rng, tier: str, faulty: bool, profile: str = "loader",
     n_ranks = len(world["files"])
     sessions = []
     n_sessions = rng.weighted([(1, 5), (2, 3), (3, 1)])
+    heavy = bool((overrides or {}).get("name_explosion"))
+    if heavy:
+        n_sessions = 1
     for si in range(n_sessions):
         r = rng.fork(f"s{si}")
         sess: Dict[str, Any] = {"zygote": r.below(len(driver.HASH_SEEDS)), "env": gen_env(r, n_ranks, faulty),
                                 "pre": [], "ops": []}
-        for _ in range(r.weighted([(1, 5), (2, 3), (3, 1)])):
+        for _ in range(1 if heavy else r.weighted([(1, 5), (2, 3), (3, 1)])):
             sess["ops"].append(gen_load_op(r, world))
         if si == 0 and not faulty and profile in ("loader", "symtab") and r.chance(0.2):
             # an earlier session rewrites the files with the tool's own writer (other format, maybe another
@@ -163,6 +200,9 @@ def check_load(res: Result, props: Set[str], si: int, op: Dict[str, Any], r: Dic
     else:
         relevant = list(op.get("files") or [])
     torn_present = any(ws.files[p]["torn"] for p in relevant if p in ws.files) or any(p not in ws.files for p in relevant)
+    if any(ws.files[p].get("unjudged") for p in relevant if p in ws.files):
+        res.probe("load_over_unjudgeable_flipped_file")
+        return
     if not r["ok"]:
         if r.get("killed"):
             return
@@ -193,7 +233,10 @@ def check_load(res: Result, props: Set[str], si: int, op: Dict[str, Any], r: Dic
         if f is None or f["torn"]:
             res.violate("C01", f"invalid-file-loaded/{mode}", {"rank": rank, "file": files[rank]}, si, r["i"])
             return
-    rfs = {rank: refmodel.RefFile(ws.files[files[rank]]["doc"]) for rank in loaded_ranks}
+    rounding = not (op.get("environ") or {}).get("HTA_DISABLE_NS_ROUNDING")
+    if not rounding:
+        res.probe("ns_rounding_disabled")
+    rfs = {rank: refmodel.RefFile(ws.files[files[rank]]["doc"], rounding) for rank in loaded_ranks}
     ref_mode = mode if mode in ("ta", "full") else "parse"
     exp = refmodel.ref_load(rfs, ref_mode, inc)
     full = ref_mode in ("ta", "full")
